@@ -22,7 +22,7 @@ RULE = ("each case = one 30 s closed-loop trajectory: plant = the shipped quadro
         "about a random horizontal axis composed with a yaw offset |psi0| <= 1 rad, initial velocity and body rates ~N(0,1), rotors at "
         "hover speed; monitors at every control step (finite, motor forces in [0,F_max], above ground) and over the last 5 s "
         "(position error < 5 cm, tilt < 0.05 rad, rates < 0.05 rad/s); non-trivial = every run; distinct = hashed initial conditions")
-ASSUMPTIONS = ["commanded heading psi_sp = 0 (the simulator's default; the statement quantifies over initial conditions, not heading commands)",
+ASSUMPTIONS = ["log-linear cascade: commanded heading psi_sp = 0 (the simulator's default; on the pinned tree that cascade diverges for |psi_sp| > ~1 rad, which is outside the statement: it quantifies over initial conditions, not heading commands)",
                "true state fed back (the simulator's strapdown estimator is covered by C08)",
                "the harness reproduces the wiring and gains of scripts/rdd2_sim.py; constants are read from the model's defaults at run time"]
 
@@ -64,12 +64,13 @@ def build_step(ctx, mode):
     i0, e0, de0 = ca.SX.sym("i0", 3), ca.SX.sym("e0", 3), ca.SX.sym("de0", 3)
     z_i = ca.SX.sym("z_i")
     target = ca.SX.sym("target", 3)
+    psi_sp = ca.SX.sym("psi_sp")
     xi = model["x_index"]
     ix = lambda base, n: [xi["%s_%d" % (base, i)] for i in range(n)]
     IP, IV, IQ, IW, IM = ix("position_op_w", 3), ix("velocity_w_p_b", 3), ix("quaternion_wb", 4), ix("omega_wb_b", 3), ix("omega_motor", 4)
     pw, vb, q, om = x[IP], x[IV], x[IQ], x[IW]
     vw = eqs["rotate_vector_b_to_w"](q, vb)
-    qc = ca.DM([1, 0, 0, 0])
+    qc = ca.vertcat(ca.cos(psi_sp / 2), 0, 0, ca.sin(psi_sp / 2))  # commanded heading as a pure-yaw quaternion
     z3 = ca.DM.zeros(3)
     if mode == "position_control":
         thrust, q_sp, z_i2 = eqs["position_control"](trim, target, z3, z3, qc, pw, vw, z_i, DT)
@@ -94,27 +95,32 @@ def build_step(ctx, mode):
         zmin = ca.fmin(zmin, xn[IP[2]])
     qn = xn[IQ]
     xn[IQ] = qn / ca.norm_2(qn)
-    ev = Ev("step_" + mode, [x, i0, e0, de0, z_i, target], [xn, i1, e1, de1, z_i2, Fp, u, thrust, q_sp, zmin], probe=False)
+    ev = Ev("step_" + mode, [x, i0, e0, de0, z_i, target, psi_sp], [xn, i1, e1, de1, z_i2, Fp, u, thrust, q_sp, zmin], probe=False)
     hover = float(np.sqrt(m * g / 4 / CT))
     return ev, dict(IP=IP, IV=IV, IQ=IQ, IW=IW, IM=IM, hover=hover)
 
 
-def initial_conditions(rng, H, idx):
+def initial_conditions(rng, H, idx, mode):
     X = np.zeros((H, 17))
-    target = np.tile(np.array([0, 0, 5.0]), (H, 1))
+    # hover set-point anywhere (the problem is translation invariant), commanded heading anywhere for the
+    # position-controller cascade; the log-linear cascade keeps the simulator's default heading 0 (DESIGN 2.C17)
+    target = np.stack([rng.uniform(-50, 50, H), rng.uniform(-50, 50, H), rng.uniform(5, 60, H)], axis=1)
+    target[: max(1, H // 5)] = np.array([0, 0, 5.0])
+    psi_sp = rng.uniform(-PI, PI, H) if mode == "position_control" else np.zeros(H)
+    psi_sp[: max(1, H // 5)] = 0.0
     X[:, idx["IP"]] = target + rng.uniform(-1.5, 1.5, (H, 3))
     tilt = rng.uniform(0, np.deg2rad(60), H)
     tilt[: max(1, H // 6)] = np.deg2rad(60)
     az = rng.uniform(-PI, PI, H)
     axis = np.stack([np.cos(az), np.sin(az), 0 * az], axis=1)
     q_tilt = O.axang_to_quat(axis, tilt)
-    psi0 = rng.uniform(-1, 1, H)
+    psi0 = psi_sp + rng.uniform(-1, 1, H)
     q_yaw = O.axang_to_quat(np.tile([0, 0, 1.0], (H, 1)), psi0)
     X[:, idx["IQ"]] = O.quat_mul(q_yaw, q_tilt) * rng.choice([-1.0, 1.0], (H, 1))
     X[:, idx["IV"]] = rng.normal(size=(H, 3))
     X[:, idx["IW"]] = rng.normal(size=(H, 3))
     X[:, idx["IM"]] = idx["hover"]
-    return X, target, tilt, psi0
+    return X, target, tilt, psi0, psi_sp
 
 
 def run(ctx):
@@ -125,7 +131,7 @@ def run(ctx):
             continue
         ev, idx = built
         rng = ctx.rng("c17:" + mode)
-        X, target, tilt, psi0 = initial_conditions(rng, H, idx)
+        X, target, tilt, psi0, psi_sp = initial_conditions(rng, H, idx, mode)
         X0 = X.copy()
         i0 = np.zeros((H, 3)); e0 = np.zeros((H, 3)); de0 = np.zeros((H, 3)); zi = np.zeros(H)
         n = int(round(TF / DT))
@@ -137,7 +143,7 @@ def run(ctx):
         perr = np.zeros(H); tiltmax = np.zeros(H); ratemax = np.zeros(H)
         perr_t = {5: np.zeros(H), 10: np.zeros(H), 20: np.zeros(H)}
         for k in range(n):
-            (Xn, i1, e1, de1, zi2, Fp, u, thrust, qsp, zmin), _ = ev(X, i0, e0, de0, zi, target)
+            (Xn, i1, e1, de1, zi2, Fp, u, thrust, qsp, zmin), _ = ev(X, i0, e0, de0, zi, target, psi_sp)
             Xn = Xn[:, :, 0]
             fin = np.isfinite(Xn).all(axis=1) & np.isfinite(Fp[:, :, 0]).all(axis=1) & np.isfinite(u[:, :, 0]).all(axis=1)
             newly = alive & ~fin
@@ -162,7 +168,7 @@ def run(ctx):
                 R = O.quat_to_R(X[:, idx["IQ"]])
                 tiltmax = np.maximum(tiltmax, np.arccos(np.clip(R[:, 2, 2], -1, 1)))
                 ratemax = np.maximum(ratemax, np.linalg.norm(X[:, idx["IW"]], axis=1))
-        inp = {"x0": X0, "initial_tilt": tilt, "initial_yaw": psi0}
+        inp = {"x0": X0, "initial_tilt": tilt, "initial_yaw": psi0, "target": target, "commanded_heading": psi_sp}
         ctx.check_array("never_nan", mode, (~alive).astype(float), 0.5, inp, extra={"first_nonfinite_step": first_nonfinite})
         ok = alive
         ctx.check_array("motor_forces_within_limits", mode, np.maximum(np.maximum(0, -fmin), np.maximum(0, fmax - FMAX))[ok], 1e-9 * FMAX, {k_: v[ok] for k_, v in inp.items()})
